@@ -28,6 +28,8 @@ THEOREMS = [
     "RedunModel.C31.record_twice",
     "RedunModel.C31.record_again_same_answer",
     "RedunModel.C31.rerecord_heals",
+    "RedunModel.C31.serialize_repairs_partial_file",
+    "RedunModel.C31.rerecord_after_faulted_first_write",
     "RedunModel.C31.put_existing_is_noop",
     "RedunModel.C31.rerecord_store_unchanged",
     "RedunModel.C31.watch_reads_value",
@@ -48,7 +50,10 @@ ASSUMPTIONS = [
     "thresholds are per record call (value_store_min_size, max_value_size set on the backend before the call); a value "
     "store may be attached to a backend that had none, never detached (a placeholder row without a configured store "
     "raises AssertionError: mirrored by the model, not generated)",
-    "bytes go missing only by deleting the whole store file / FileCache file of one value (no partial or altered files)",
+    "bytes go missing by deleting the whole store file / FileCache file of one value, or by an injected ENOSPC inside the "
+    "write of a FileCache file (file left existing and empty); such a fault is always followed by a record of the same "
+    "value before the next read (a read of the partial file in between raises in redun — pickle of a partial file — and "
+    "is not staged)",
     "the store is a local (non-atomic) directory. A re-record may be staged with a window inside the store's write of that "
     "object (harness wrapper around LocalFileSystem._open for that one path): the other backend reads the value, or the "
     "write fails with ENOSPC, between open-for-writing and close. Staged only when the object exists; demanded only for a "
@@ -161,7 +166,13 @@ def gen_case(rng, nops, datalen):
                 ops.append(("get", i, a))
         elif k < 0.93:
             blobs = [j for j, v in enumerate(vals) if v[0] == "blob"]
-            ops.append(("dropfc", rng.choice(blobs)) if blobs else ("get", i))
+            if blobs and rng.random() < 0.5:
+                j = rng.choice(blobs)            # interrupted write of the FileCache file, then recorded again, then read
+                ops.append(("faultfc", j, rng.randrange(2)))
+                ops.append(("record", j, rng.choice([0, 10 ** 9]), 10 ** 9, rng.randrange(2)))
+                ops.append(("get", j, rng.randrange(2)))
+            else:
+                ops.append(("dropfc", rng.choice(blobs)) if blobs else ("get", i))
         else:
             ops.append(("attach",))
     return dict(store=store, vals=vals, ops=ops)
@@ -204,6 +215,10 @@ CORPUS = [
     dict(store=True, vals=[("blob", b"big payload"), ("py", "t" * 90)], ops=[("record", 0, 0, BIG, 1), ("record", 1, 0, BIG, 1), ("recordfault", 1, 0, BIG, 1),
                                                                                ("get", 1, 0), ("recordwatch", 0, 0, BIG, 0), ("get", 0, 1), ("recordwatch", 1, 0, 5, 0),
                                                                                ("get", 1, 1)]),
+    # the FIRST write of a FileCache file is interrupted (file exists, partial); recording again must repair it
+    dict(store=True, vals=[("blob", b"first write fails")], ops=[("faultfc", 0, 0), ("record", 0, BIG, BIG, 0), ("get", 0, 1), ("get", 0, 0)]),
+    dict(store=False, vals=[("blob", b"p2"), ("py", 3)], ops=[("record", 0, 0, BIG, 0), ("get", 0, 0), ("faultfc", 0, 1), ("record", 0, 0, BIG, 1),
+                                                                ("get", 0, 0), ("faultfc", 0, 0), ("record", 0, 0, BIG, 0), ("get", 0, 1)]),
     # never recorded
     dict(store=True, vals=[("py", 5), ("blob", b"")], ops=[("get", 0), ("get", 1), ("dropstore", 0), ("record", 1, 0, BIG), ("get", 1)]),
 ]
@@ -246,6 +261,9 @@ class Real:
                 self._f, self._arm = f, arm
 
             def write(self, data):
+                if self._arm["mode"] == "fault0":          # the write fails before a single byte is on disk
+                    self._arm["fired"] = True
+                    raise OSError(errno.ENOSPC, "No space left on device (injected)")
                 half = len(data) // 2
                 self._f.write(data[:half])
                 self._f.flush()
@@ -385,6 +403,8 @@ def model_lines(real, case):
             per_op.append("(recordwatch %s i%d i%d)" % (mval(vals[op[1]]), op[2], op[3]))
         elif k == "recordfault":       # the unchanged code never writes an existing object: the fault cannot strike
             per_op.append("(record %s i%d i%d)" % (mval(vals[op[1]]), op[2], op[3]))
+        elif k == "faultfc":
+            per_op.append("(faultfc b%s)" % real.payload(vals[op[1]]).hex())
         elif k == "get":
             per_op.append("(get %s)" % mkey(vals[op[1]]))
         elif k == "getaway":
@@ -548,6 +568,23 @@ def run_case(ctx, real, case, replies, n_pre, per_op, label):
                 ctx.violation("C31-missing-bytes-not-absent" if dg in dropped else "C31-get-raises",
                               "get_value raised %s instead of returning a value or absent" % type(e).__name__, case=jcase,
                               expected="value or absent", actual=out, kind="history")
+        elif k == "faultfc":
+            # record_value of a FileCache value; the write of its file fails (ENOSPC) right after the file was opened
+            v = vals[op[1]]
+            dg = real.digest(v)
+            b = real.backends[op[2] if len(op) > 2 else 0]
+            b.value_store_min_size, b._max_value_size = 0, BIG
+            real.arm = {"path": real.fname(v).decode(), "mode": "fault0", "reader": None, "fired": False, "opened": False,
+                        "result": None}
+            try:
+                b.record_value(real.obj(v))
+                out = "(recorded)"
+            except Exception as e:  # noqa: BLE001
+                out = "!" + type(e).__name__
+            finally:
+                real.arm = None
+            dropped.add(dg)                 # the file now holds a partial (empty) serialisation: the bytes are damaged ...
+            lost_fc.add(dg)                 # ... until a record call rewrites the file
         elif k == "dropstore":
             dg = real.digest(vals[op[1]])
             p = os.path.join(real.vs_dir, dg[:2], dg[2:])
